@@ -127,7 +127,7 @@ C_Yield ==
 C_CtrlC == /\ ppc = "ctrlc" /\ Emit(Ev("INT", pi, 0, "")) /\ pstatus' = "interrupted" /\ ppc' = "join" /\ cur' = NoEv
            /\ WUnch /\ UNCHANGED <<pi, q, stop, fails, limit, executed, problem, stopped, faulted>>
 (* KeyboardInterrupt raised inside events_queue.get(): the handler stops the engine and reports the interruption *)
-C_CtrlCGet == /\ AllowCtrlC /\ ppc = "get" /\ ~stopped
+C_CtrlCGet == /\ AllowCtrlC /\ ppc \in {"get", "alive"} /\ ~stopped      \* ... or while it polls the workers' liveness after a timeout
               /\ stop' = TRUE /\ stopped' = TRUE /\ Emit(Ev("INT", pi, 0, "")) /\ pstatus' = "interrupted" /\ ppc' = "join"
               /\ WUnch /\ UNCHANGED <<pi, q, fails, limit, executed, cur, problem, faulted>>
 C_Join == /\ ppc = "join" /\ AllDead
